@@ -338,6 +338,17 @@ impl RttEstimator {
         self.min
     }
 
+    /// (latest, smoothed, variance, minimum) in nanoseconds; smoothed is `None` before the first sample
+    #[cfg(feature = "verif-hooks")]
+    pub(crate) fn verif_parts(&self) -> (u64, Option<u64>, u64, u64) {
+        (
+            self.latest.as_nanos() as u64,
+            self.smoothed.map(|x| x.as_nanos() as u64),
+            self.var.as_nanos() as u64,
+            self.min.as_nanos() as u64,
+        )
+    }
+
     // PTO computed as described in RFC9002#6.2.1
     pub(crate) fn pto_base(&self) -> Duration {
         self.get() + cmp::max(4 * self.var, TIMER_GRANULARITY)
